@@ -121,6 +121,13 @@ def families(tier: str) -> list[dict]:
         scripts.append((34, False, dict(damping='damp_lin', F=1, I=1,
                                         kl_clip='kl_lin', lr='lr_lin')))
         scripts.append((70, True, dict(damping='damp_lin', F='int_1_3', I=2)))
+    # roll back to a checkpoint taken at step 0 (before anything happened)
+    cz0 = dict(base, F=2, I=2, in_hook=True, accum=1, damping='damp_lin')
+    sc0 = [('save', True)] + ts(3) + [('rollback', False)] + ts(3)
+    fams.append(reffam.fam(cz0, ['Train', 'Step', 'Save', 'Rollback'],
+                           len(sc0), micro=[1], exhaustive=True, spec_depth=4,
+                           script=sc0, save_args=(True,),
+                           load_args=(True, False)))
     for nlate, comp, extra in scripts:
         cz = dict(base, F=extra.pop('F', 2), I=extra.pop('I', 3),
                   in_hook=True, accum=1, **extra)
